@@ -27,7 +27,9 @@ RULE = ("a case = one `msmart-ng control <host> [--id --token --key] setting=val
         "values incl. nan/inf/None/containers/complex where a number is expected, malformed pairs, valid-then-invalid): non-zero exit (an uncaught exception counts as non-zero, recorded as 'crash') and "
         "zero connections / bytes on the simulated network. distinct = argv; all non-trivial")
 ASSUMPTIONS = ["only documented spellings are judged: member names and values of the enumerations, int/float literals, True/False/1/0 in any letter case",
-               "an uncaught exception in cli.main() is a non-zero exit", "README.md lines 120-133 are the specification of the value syntax"]
+               "an uncaught exception in cli.main() is a non-zero exit", "README.md lines 120-133 are the specification of the value syntax",
+               "restricted-profile cases use units that may report a fan speed their capabilities exclude; on the unchanged tree that exposes the known "
+               "finding fan-reset-to-auto/display-toggle-after-capabilities (known_findings.json), keyed by mechanism so that the same symptom on any other path is still reported"]
 ANCHORS = ["cli.py:_control", "cli.py:_connect", "cli.py:main", "device.py:AirConditioner.apply", "device.py:AirConditioner.toggle_display"]
 MIN_NONTRIVIAL = {"quick": 900, "thorough": 20000}
 MIN_HIST = {"quick": {"valid-ok": 600, "invalid-rejected-cleanly": 120}, "thorough": {"valid-ok": 15000, "invalid-rejected-cleanly": 1500}}
